@@ -38,6 +38,7 @@ type SysObs struct {
 	Probed, ProbeBlocked bool
 	ProbeBy              *system.Rule
 	ClearFault           string // wind-up through system.ClearRules left rules in force
+	ObsFault             string // a getter / the probe request panicked (caught, reported by the monitor)
 }
 
 func GenSys(r *rng.R, id int) SysCase {
@@ -150,9 +151,11 @@ func RunSys(c SysCase) []SysObs {
 			ob.Changed, ob.Err = ch, err != nil
 		}()
 		ob.PerMetric = map[uint32][]system.Rule{}
-		for _, t := range system.GetRules() {
-			ob.PerMetric[uint32(t.MetricType)] = append(ob.PerMetric[uint32(t.MetricType)], t)
-		}
+		ob.ObsFault = guard("system.GetRules", func() {
+			for _, t := range system.GetRules() {
+				ob.PerMetric[uint32(t.MetricType)] = append(ob.PerMetric[uint32(t.MetricType)], t)
+			}
+		})
 		out = append(out, ob)
 	}
 	if len(out) > 0 && Clk != nil {
@@ -160,28 +163,36 @@ func RunSys(c SysCase) []SysObs {
 		Clk.AddMs(30000)
 		last := &out[len(out)-1]
 		last.Probed = true
-		e, b := sentinel.Entry("c13s-"+strconv.Itoa(c.ID), sentinel.WithTrafficType(base.Inbound))
-		if b != nil {
-			last.ProbeBlocked = true
-			if sr, ok := b.TriggeredRule().(*system.Rule); ok && b.BlockType() == base.BlockTypeSystemFlow {
-				x := *sr
-				last.ProbeBy = &x
+		if f := guard("the inbound probe request", func() {
+			e, b := sentinel.Entry("c13s-"+strconv.Itoa(c.ID), sentinel.WithTrafficType(base.Inbound))
+			if b != nil {
+				last.ProbeBlocked = true
+				if sr, ok := b.TriggeredRule().(*system.Rule); ok && b.BlockType() == base.BlockTypeSystemFlow {
+					x := *sr
+					last.ProbeBy = &x
+				}
+			} else {
+				e.Exit()
 			}
-		} else {
-			e.Exit()
+		}); f != "" && last.ObsFault == "" {
+			last.ObsFault = f
 		}
 		Clk.AddMs(30000)
 	}
 	if len(out) > 0 {
 		last := &out[len(out)-1]
-		system.LoadRules([]*system.Rule{{ID: "9", MetricType: system.Load, TriggerCount: 100}})
-		if err := system.ClearRules(); err != nil {
-			last.ClearFault = "ClearRules returned an error: " + err.Error()
-		} else if n := len(system.GetRules()); n != 0 {
-			last.ClearFault = fmt.Sprintf("after ClearRules GetRules still reports %d rules", n)
+		if f := guard("system.ClearRules", func() {
+			system.LoadRules([]*system.Rule{{ID: "9", MetricType: system.Load, TriggerCount: 100}})
+			if err := system.ClearRules(); err != nil {
+				last.ClearFault = "ClearRules returned an error: " + err.Error()
+			} else if n := len(system.GetRules()); n != 0 {
+				last.ClearFault = fmt.Sprintf("after ClearRules GetRules still reports %d rules", n)
+			}
+		}); f != "" {
+			last.ClearFault = f
 		}
 	}
-	system.LoadRules([]*system.Rule{})
+	guard("system.LoadRules", func() { system.LoadRules([]*system.Rule{}) })
 	return out
 }
 
@@ -258,6 +269,10 @@ func MonitorSys(c SysCase, obs []SysObs, rep *emit.Report) bool {
 		ob := obs[k]
 		if ob.Panicked {
 			fail("C13_no_panic", "load-panicked", fmt.Sprintf("op %d panicked", k))
+			return false
+		}
+		if ob.ObsFault != "" {
+			fail("C13_getters_eq_enforced", "getter-panicked", fmt.Sprintf("after op %d: %s", k, ob.ObsFault))
 			return false
 		}
 		nan := false
@@ -373,6 +388,7 @@ type OutObs struct {
 	Consistent             bool
 	NAll                   int
 	ClearFault             string // wind-up through ClearRuleOfResource / ClearRules left rules in force
+	ObsFault               string // a getter panicked (caught, reported by the monitor)
 }
 
 func cloneOut(t *outlier.Rule) *outlier.Rule {
@@ -527,18 +543,23 @@ func RunOut(c OutCase) []OutObs {
 			ob.Changed, ob.Err = ch, err != nil
 		}()
 		ob.Consistent = true
-		for i := 1; i <= c.NRes; i++ {
-			t, ok, cons := outlier.VerifRuleOfResource(c.Res[i])
-			if !cons {
-				ob.Consistent = false
+		ob.ObsFault = guard("reading the outlier rules in force", func() {
+			for i := 1; i <= c.NRes; i++ {
+				t, ok, cons := outlier.VerifRuleOfResource(c.Res[i])
+				if !cons {
+					ob.Consistent = false
+				}
+				if ok {
+					ob.Per = append(ob.Per, cloneOut(&t))
+				} else {
+					ob.Per = append(ob.Per, nil)
+				}
 			}
-			if ok {
-				ob.Per = append(ob.Per, cloneOut(&t))
-			} else {
-				ob.Per = append(ob.Per, nil)
-			}
+			ob.NAll = len(outlier.GetRules())
+		})
+		for len(ob.Per) < c.NRes {
+			ob.Per = append(ob.Per, nil)
 		}
-		ob.NAll = len(outlier.GetRules())
 		out = append(out, ob)
 	}
 	if len(out) > 0 {
@@ -576,7 +597,7 @@ func RunOut(c OutCase) []OutObs {
 			}
 		}()
 	}
-	outlier.LoadRules(nil)
+	guard("outlier.LoadRules", func() { outlier.LoadRules(nil) })
 	return out
 }
 
@@ -663,6 +684,10 @@ func MonitorOut(c OutCase, obs []OutObs, rep *emit.Report) bool {
 		ob := obs[k]
 		if ob.Panicked {
 			fail("C13_no_panic", "load-panicked", fmt.Sprintf("op %d panicked", k))
+			return false
+		}
+		if ob.ObsFault != "" {
+			fail("C13_getters_eq_enforced", "getter-panicked", fmt.Sprintf("after op %d: %s", k, ob.ObsFault))
 			return false
 		}
 		for _, t := range o.Rules {
